@@ -118,6 +118,8 @@ def random_history(args):
                 out, exc = sess.step(*call)
             except am.Skip:
                 continue
+            if getattr(sess, 'alt', None) and out == 'TypeError' and ev['op'] == 'TR_Call':
+                ev['i'] = am.NONINT      # a NumPy integer was refused like any non-integer
             o = sess.observe()
             if GARBAGE in (o.get('rows') or ()):
                 pass
